@@ -1,6 +1,6 @@
 # C13 — Applying a quick fix yields valid code and removes the reported problem.
 # Also: text_rules_check(ctx) — prefer-ascii / no-irregular-whitespace models vs the rules (text part of C03/C09).
-import collections, json, os, random, sys
+import collections, json, os, random, re, sys
 import lib, pipe
 from lib import log
 from props import register
@@ -537,20 +537,28 @@ def gen_global_like(rng, rule, names, req_of, dec):
             if it[1].startswith("import "):
                 last_import[0] = e0
     cs = code_start[0] if code_start[0] is not None else 0
+    final = t.src().encode("utf8")
+
+    def inline_flag(m):
+        # does anything but white space follow the import (ending at byte m) on its line?
+        pos = int(m.group(1))
+        nl = final.find(b"\n", pos)
+        rest = final[pos:nl if nl >= 0 else len(final)]
+        return "1" if rest.decode("utf8", "replace").strip() else "0"
     for s in sites:
         for r in s["reqs"]:
-            r["req"] = r["req"].replace("CS", str(cs))
+            r["req"] = re.sub(r"IL(\d+)", inline_flag, r["req"].replace("CS", str(cs)))
     return {"src": t.src(), "media": media, "rule": rule, "sites": sites}
 
 
 def gen_process(rng):
     return gen_global_like(rng, "no-process-global", ["process"],
-                           lambda cjs, name, li, s, e: "8 %d %s CS" % (cjs, pipe.enc_opt(li, str)), "optchange_nofix")
+                           lambda cjs, name, li, s, e: "8 %d %s CS" % (cjs, pipe.enc_opt(li, lambda v: "%d IL%d" % (v, v))), "optchange_nofix")
 
 
 def gen_node_globals(rng):
     return gen_global_like(rng, "no-node-globals", NODE_NAMES,
-                           lambda cjs, name, li, s, e: "9 %d %s %s CS %d %d" % (cjs, pipe.enc_str(name), pipe.enc_opt(li, str), s, e), "optopt")
+                           lambda cjs, name, li, s, e: "9 %d %s %s CS %d %d" % (cjs, pipe.enc_str(name), pipe.enc_opt(li, lambda v: "%d IL%d" % (v, v)), s, e), "optopt")
 
 
 # ---- verbatim-module-syntax
@@ -701,6 +709,8 @@ REGRESSION = [
     ("ts", "no-node-globals", "// deno-lint-ignore no-node-globals\nconst a = setImmediate;\nconst b = Buffer;\n"),
     ("js", "no-process-global", "#!/usr/bin/env node\n// deno-lint-ignore no-process-global\nprocess.exit();\nprocess.env;\n"),
     ("ts", "no-node-globals", "/* header */ // deno-lint-ignore\nglobal.x;\r\nBuffer.from('a');"),
+    ("ts", "no-node-globals", "// deno-lint-ignore no-node-globals\n/* header */ import a from 'b'; import 'side'; x = [setImmediate, 1];\nclearImmediate;\n"),
+    ("ts", "no-process-global", "// deno-lint-ignore no-process-global\nimport a from 'b'; process.exit(); // c\nprocess.env;\n"),
     ("ts", "no-window", "function f(globalThis) { window.fetch(); }"), ("ts", "no-window-prefix", "window.fetch(); window[\"console\"]; window[`crypto`];"),
 ]
 
